@@ -24,6 +24,7 @@ func RegisterGen(name string, body func() (string, error)) {
 
 func Main() {
 	outdir := os.Args[1]
+	_ = os.MkdirAll(outdir, 0o755)
 	only := ""
 	if len(os.Args) > 2 {
 		only = os.Args[2]
